@@ -90,6 +90,10 @@ func typeShapes() []struct {
 		// named types over every kind of underlying type, exotic basics
 		{"NamedFn", Named(a, "Fn")}, {"NamedSl", Named(b, "Sl")}, {"NamedMp", Named(a, "Mp")}, {"NamedCh", Named(b, "Ch")}, {"NamedArr", Named(a, "Arr")},
 		{"NamedPtr", Named(b, "Ptr")}, {"Complex", Basic("complex128")}, {"Uintptr", Basic("uintptr")}, {"SlOfSl", Slice(Named(a, "Sl"))}, {"FnOfFn", Func([]T{Named(a, "Fn")}, []T{Named(b, "Fn")})},
+		// type names that de-capitalise to a keyword (the generated name needs the MoqParam suffix)
+		{"KwVar", Named(a, "Var")}, {"KwType", Ptr(Named(b, "Type"))}, {"KwGo", Named(a, "Go")}, {"KwRange", Slice(Named(b, "Range"))}, {"KwFunc", Named(a, "Func")},
+		// pointers to basic types inside composites (the element rule applies to what the pointer points to)
+		{"SPStr", Slice(Ptr(Basic("string")))}, {"MapSPInt", Map(Basic("string"), Ptr(Basic("int")))}, {"ChPBool", Chan("", Ptr(Basic("bool")))}, {"APFloat", Array(Ptr(Basic("float64")))}, {"SPPInt", Slice(Ptr(Ptr(Basic("int32"))))},
 		// literals that embed named types
 		{"IfaceEmbed", IfaceEmbed(Named(a, "I"))}, {"StructEmbed", StructEmbed(Named(b, "T"))}, {"IfaceEmbedLocal", IfaceEmbed(Named(-1, "LocalC"))},
 	}
@@ -303,6 +307,11 @@ func CorpusImports(seed int64, tier string) []*Case {
 			}
 		}
 	}
+	// major versions of one package side by side: the paths differ only in the trailing /vN
+	vers := []impElem{{[]string{"q", "store"}, "store"}, {[]string{"q", "store", "v2"}, "store"}, {[]string{"q", "store", "v3"}, "store"}}
+	for _, sel := range [][]impElem{{vers[1], vers[2]}, {vers[2], vers[1]}, {vers[0], vers[1]}, {vers[1], vers[0]}, {vers[0], vers[1], vers[2]}, {vers[2], vers[0], vers[1]}} {
+		mk(sel, nil, "versions:"+name(sel))
+	}
 	// path elements that merely contain "vendor" (multivendor/catalog): nothing is
 	// vendored here, the paths must come out as they are
 	vend := []impElem{{[]string{"multivendor", "catalog"}, "catalog"}, {[]string{"thirdvendor", "catalog"}, "catalog"}, {[]string{"vendorx", "kit"}, "foo"}, {[]string{"x", "vendor-kit"}, "foo"}}
@@ -491,10 +500,29 @@ func CorpusGenerics(seed int64, tier string) []*Case {
 		g{"GIfaceA", []TypeParam{{Name: "K", Constraint: "pkgiface:1"}, {Name: "V", Constraint: "any"}}}, g{"GIfaceB", []TypeParam{{Name: "K", Constraint: "pkgiface:2"}}})
 	gs = append(gs, g{"GKeyB", []TypeParam{{Name: "V", Constraint: "any"}, {Name: "K", Constraint: "pkgkey:2"}}},
 		g{"GInit", []TypeParam{{Name: "Id", Constraint: "cmpunion"}, {Name: "url", Constraint: "any"}}}, g{"GLower2", []TypeParam{{Name: "kk", Constraint: "localkey"}, {Name: "vv", Constraint: "stringer"}}})
+	// blank type parameters (moq invents a name for them) next to a parameter spelled like the usual invention
+	gs = append(gs, g{"GBlank", []TypeParam{{Name: "T", Constraint: "any"}, {Name: "_", Constraint: "stringer"}}},
+		g{"GBlank2", []TypeParam{{Name: "_", Constraint: "any"}, {Name: "T", Constraint: "method"}, {Name: "U", Constraint: "union"}}},
+		g{"GBlank3", []TypeParam{{Name: "_", Constraint: "any"}, {Name: "_", Constraint: "ustring"}, {Name: "V", Constraint: "any"}}})
+	// type terms that name types of the source package and of a dependency (imported and qualified like other types)
+	gs = append(gs, g{"GSrcUnion", []TypeParam{{Name: "N", Constraint: "srcunion"}, {Name: "S", Constraint: "srcapprox"}}},
+		g{"GDepUnion", []TypeParam{{Name: "K", Constraint: "depunion:1"}, {Name: "V", Constraint: "any"}}})
 	gs = append(gs, g{"GLower", []TypeParam{{Name: "t", Constraint: "any"}}}, g{"GSwap", []TypeParam{{Name: "B", Constraint: "any"}, {Name: "A", Constraint: "stringer"}}},
 		g{"G3", []TypeParam{{Name: "A", Constraint: "any"}, {Name: "B", Constraint: "union"}, {Name: "C", Constraint: "any"}}})
 	for i, x := range gs {
 		first, last := TParam(x.tps[0].Name), TParam(x.tps[len(x.tps)-1].Name)
+		for _, tp := range x.tps { // a blank type parameter cannot be mentioned
+			if tp.Name != "_" {
+				first = TParam(tp.Name)
+				break
+			}
+		}
+		for k := len(x.tps) - 1; k >= 0; k-- {
+			if x.tps[k].Name != "_" {
+				last = TParam(x.tps[k].Name)
+				break
+			}
+		}
 		it := Iface{Name: x.name, TParams: x.tps, OneFile: true, Aliases: []map[int]string{{2: "knumb"}}, Methods: []Method{
 			meth("Get", ps(par("k", first)), ps(par("", last), par("", Basic("bool")))),
 			meth("Put", ps(par("k", first), par("v", last), par("extra", Named(0, "T"))), nil),
@@ -631,6 +659,13 @@ func CorpusFlags(seed int64, tier string) []*Case {
 				Judge: []string{"C01", "C02", "C08", "C10", "C11", "C16", "C19", "C20"}})
 		}
 	}
+	// another package (another directory) that happens to be called like the source package
+	for _, n := range []string{"UsesSrc", "Plain", "UsesDep"} {
+		for _, cfg := range []Cfg{{Dest: "other", PkgName: "fsrc", SkipEnsure: true}, {Dest: "other", PkgName: "fsrc", SkipEnsure: true, Stub: true, WithResets: true}} {
+			cfg.Args = []string{n}
+			cases = append(cases, &Case{Origin: "flags:other-directory-same-package-name:" + n, Src: src, Cfg: cfg, Judge: []string{"C01", "C02", "C10", "C11", "C19"}})
+		}
+	}
 	i := 0
 	for ci, cfg := range allCfgs() {
 		for ii, it := range ifs {
@@ -671,7 +706,15 @@ func CorpusMulti(seed int64, tier string) []*Case {
 	// ResetDoCalls collides with the reset generated for Do): whatever happens to its mock,
 	// the other mocks of the run are the ones they are alone
 	ifs = append(ifs, Iface{Name: "Collide", Methods: []Method{meth("Do", ps(par("a", Basic("int"))), nil), meth("ResetDoCalls", nil, nil)}})
+	// an unexported interface keeps its name in the default mock name, whatever the destination
+	ifs = append(ifs, Iface{Name: "flusher", Methods: []Method{meth("Flush", ps(par("n", Basic("int"))), ps(par("", errT)))}})
 	src := newSrc("msrc", pkgs, ifs...)
+	for _, l := range [][]string{{"flusher", "Reader"}, {"Nothing", "flusher"}, {"flusher"}} {
+		for _, cfg := range []Cfg{{Dest: "implicit"}, {Dest: "other", SkipEnsure: true}, {Dest: "other", SkipEnsure: true, Stub: true, WithResets: true}} {
+			cfg.Args = l
+			cases = append(cases, &Case{Origin: "multi:unexported-interface:" + strings.Join(l, ","), Src: src, Cfg: cfg, Solo: len(l) > 1, Judge: []string{"C01", "C20", "C19"}, Repeat: 2})
+		}
+	}
 	for _, l := range [][]string{{"Collide", "Reader"}, {"Reader", "Collide"}, {"Writer", "Collide", "Other"}} {
 		for _, cfg := range []Cfg{{Dest: "implicit", WithResets: true}, {Dest: "other", WithResets: true, Stub: true}, {Dest: "implicit"}} {
 			cfg.Args = l
